@@ -10,11 +10,15 @@
       EMA/DMA/TMA return `v`, DEMA/TEMA reproduce the constant exactly, Highest/Lowest return the
       (bit pattern of the) value itself, crossing detectors stay silent.
   Statements combine with `C02_*`/`C03_*`/`C04_*` (model output = spec) by rewriting.
-  Indicators, and the methods without a model=spec theorem yet, are covered by the correspondence
+    * every moving-average kind reproduces a constant exactly (`C08_all_kinds_constant`: SWMA, TRIMA, SMM, Vidya, Conv
+      with non-negative weights from their hull theorems, HMA and LinReg from affine equivariance with a = 0), and the
+      remaining window specs are prefix-invariant (`C08_window_specs_prefix`).
+  Indicators are covered by the correspondence
   run (`indapi --which constant`, method suites with leading repetitions): constant input and prefix
   invariance checked on the real code for every indicator and several configurations.
 -/
 import YataProofs.Constant
+import YataProofs.ConstantAll
 import YataProofs.Cross
 namespace Yata.C08
 open Yata
@@ -50,6 +54,31 @@ theorem C08_selection_constant {β : Type} [FloatLike β K] {n : Nat} {v m : β}
     (IsMaxOf m (List.replicate n v) → m = v) ∧ (IsMinOf m (List.replicate n v) → m = v) :=
   ⟨isMaxOf_replicate, isMinOf_replicate⟩
 
+/-- constant input reproduces the constant exactly for every remaining moving-average kind -/
+theorem C08_all_kinds_constant [DecidableEq K] (n k : Nat) (v : K) :
+    (2 ≤ n → Spec.swma n v (List.replicate k v) = v) ∧
+    (0 < n → Spec.trima n v (List.replicate k v) = v) ∧
+    (0 < n → Spec.smm n v (List.replicate k v) = v) ∧
+    (0 < n → Spec.vidya n v (List.replicate k v) = v) ∧
+    (0 < n / 2 → 0 < Nat.sqrt n → Spec.hma n v (List.replicate k v) = v) ∧
+    (0 < n → Spec.linreg n v (List.replicate k v) = v) ∧
+    (∀ ws : List K, (∀ w ∈ ws, 0 ≤ w) → 0 < ws.sum → Spec.conv ws v (List.replicate k v) = v) :=
+  ⟨(constants_hull_kinds n k v).1, (constants_hull_kinds n k v).2.1, (constants_hull_kinds n k v).2.2.1,
+   (constants_hull_kinds n k v).2.2.2, fun h2 hs => hma_constant n h2 hs v k, fun h => linreg_constant n h v k,
+   fun ws hw hs => conv_constant ws hw hs v k⟩
+
+/-- the remaining sliding-window specs see only the window, hence ignore extra leading copies of the construction value -/
+theorem C08_window_specs_prefix (n j : Nat) (hn : 2 ≤ n) (v : K) (xs : List K) (ws : List K) :
+    Spec.swma n v (List.replicate j v ++ xs) = Spec.swma n v xs ∧
+    Spec.linreg n v (List.replicate j v ++ xs) = Spec.linreg n v xs ∧
+    Spec.smm n v (List.replicate j v ++ xs) = Spec.smm n v xs ∧
+    Spec.conv ws v (List.replicate j v ++ xs) = Spec.conv ws v xs := by
+  refine ⟨?_, ?_, ?_, ?_⟩
+  · unfold Spec.swma; rw [if_neg (by omega), if_neg (by omega)]; unfold Spec.win; rw [win_prefix_invariant]
+  · unfold Spec.linreg Spec.win; rw [win_prefix_invariant]
+  · unfold Spec.smm Spec.win; rw [win_prefix_invariant]
+  · unfold Spec.conv Spec.win; rw [win_prefix_invariant]
+
 /-- a constant pair never crosses: with a constant difference `d` neither rule can hold -/
 theorem C08_cross_silent (d : K) : crossAboveRule d d = false ∧ crossUnderRule d d = false := by
   constructor
@@ -75,3 +104,5 @@ end Yata.C08
 #print axioms Yata.C08.C08_ema_family_constant
 #print axioms Yata.C08.C08_selection_constant
 #print axioms Yata.C08.C08_cross_silent
+#print axioms Yata.C08.C08_all_kinds_constant
+#print axioms Yata.C08.C08_window_specs_prefix
